@@ -48,6 +48,9 @@ type Program struct {
 
 	AllFuncs     map[*ssa.Function]bool // every function with a body in module packages (incl. anonymous)
 	globalNonNil map[*ssa.Global]int
+	funcAlias  map[*ssa.Function]string // renamed function -> its reference name
+	aliasByOld map[string]*ssa.Function
+	fieldAlias map[string]string // "pkg.Struct.newName" -> reference field name
 
 	chaG *callgraph.Graph
 	vtaG *callgraph.Graph
@@ -149,6 +152,7 @@ func Load(overlay map[string][]byte) (*Program, error) {
 		}
 	}
 	currentProg = p
+	p.computeAliases()
 	return p, nil
 }
 
@@ -247,6 +251,23 @@ func (p *Program) SSAPackage(rel string) *ssa.Package {
 // Func resolves a function or method by package (relative), receiver type
 // name ("" for functions) and name. Returns nil when absent.
 func (p *Program) Func(relPkg, recv, name string) *ssa.Function {
+	if f := p.funcByName(relPkg, recv, name); f != nil {
+		return f
+	}
+	// renamed? (see known.go)
+	pkgPath := ModulePath + "/" + relPkg
+	for _, q := range []string{pkgPath + "." + name, "(*" + pkgPath + "." + recv + ")." + name, "(" + pkgPath + "." + recv + ")." + name} {
+		if recv == "" && strings.HasPrefix(q, "(") {
+			continue
+		}
+		if f := p.aliasByOld[q]; f != nil {
+			return f
+		}
+	}
+	return nil
+}
+
+func (p *Program) funcByName(relPkg, recv, name string) *ssa.Function {
 	sp := p.SSAPackage(relPkg)
 	if sp == nil {
 		return nil
@@ -335,6 +356,20 @@ func FuncName(fn *ssa.Function) string {
 		return "<nil>"
 	}
 	s := fn.String()
+	if top := fn; top.Parent() == nil {
+		if old := refName(top); old != "" {
+			s = old
+		}
+	} else {
+		// an anonymous function of a renamed function: keep the "$n" suffixes on the reference name
+		root := fn
+		for root.Parent() != nil {
+			root = root.Parent()
+		}
+		if old := refName(root); old != "" {
+			s = old + strings.TrimPrefix(s, root.String())
+		}
+	}
 	s = strings.ReplaceAll(s, ModulePath+"/", "")
 	return s
 }
